@@ -84,9 +84,9 @@ func TestRegressionCounterUnsubscribe(t *testing.T) {
 // 0 without triggering: nothing pending, never triggered.
 func TestRegressionWaitGroupAddDoneWindow(t *testing.T) {
 	const check = "regression_waitgroup_add_done_window"
-	stats.Rule(check, "fixed cases: (Add(3,3) with Done(3) at the first yield point) and (group with 7 pending: Add(7) with Done(7) at the yield point)")
+	stats.Rule(check, "fixed cases: (Add(3,3) with Done(3) at the yield point of the second, already pending 3) and (group with 7 pending: Add(7) with Done(7) at the yield point)")
 	for _, p := range []wgSeqProg{
-		{Ops: []wgOp{{Op: "add", Elems: []int{3, 3}, Inter: []wgInter{{At: 0, Ops: []wgOp{{Op: "done", Elems: []int{3}}}}}}}},
+		{Ops: []wgOp{{Op: "add", Elems: []int{3, 3}, Inter: []wgInter{{At: 1, Ops: []wgOp{{Op: "done", Elems: []int{3}}}}}}}},
 		{Init: []int{7}, Ops: []wgOp{{Op: "add", Elems: []int{7}, Inter: []wgInter{{At: 0, Ops: []wgOp{{Op: "done", Elems: []int{7}}}}}}}},
 	} {
 		p := p
